@@ -96,7 +96,10 @@ def _check_z3(args):
 
         def run(opts, to):
             s = z3.Solver(ctx=zctx)
-            s.set("timeout", to)
+            # deterministic budget: z3 resource units (about 1.1e6 per second on this machine) - verdicts do not depend on
+            # machine load; the wall-clock timeout is only a backstop at 4x the nominal time
+            s.set("rlimit", int(to) * 1100)
+            s.set("timeout", int(to) * 4)
             s.set("random_seed", seed)
             for k, v in opts.items():
                 s.set(k, v)
